@@ -75,7 +75,17 @@ def run_shard(ctx):
 
 def run_case(ctx, case_seed, i, n_variants):
   rng = random.Random(case_seed)
-  prog = progen.generate(rng, features_for(i))
+  prog = None
+  if i % 4 == 3:
+    # programs with functor applications: the order in which the applications are built must not depend on the
+    # names of the predicates either
+    from vf.checks import c04
+    built = c04.build(rng)
+    if built:
+      prog = built[0]
+      ctx.count('programs_with_functor_applications')
+  if prog is None:
+    prog = progen.generate(rng, features_for(i))
   text, _ = printer.program_text(prog)
   info = {'case_seed': case_seed, 'i': i, 'n_variants': n_variants}
   ctx.journal(dict(info, program=text))
@@ -92,6 +102,8 @@ def run_case(ctx, case_seed, i, n_variants):
     base[p] = pipeline.run(text, p, rules=rules)
   ev = evaluator.Evaluator(prog, switches=dict(baseline))
   kinds = ['rules', 'conjuncts', 'vars', 'preds', 'all', 'all', 'rules', 'all', 'conjuncts', 'all']
+  if prog.get('annotations') and any(a[0] == 'make' for a in prog['annotations']):
+    kinds = ['preds', 'all', 'preds', 'rules', 'preds', 'all', 'preds', 'all', 'preds', 'all']
   for vi in range(n_variants):
     kind = kinds[vi % len(kinds)]
     variant, mapping = make_variant(prog, rng, kind)
